@@ -247,7 +247,7 @@ pub fn process_weak_refs(
     tracer_context: impl ObjectTracerContext<SimVM>,
 ) -> bool {
     let info = introspect::gc_info(mmtk());
-    let (eph, strong): (Vec<Ephemeron>, Vec<(u64, usize)>) = with_world(|w| {
+    let (eph, strong): (Vec<(Ephemeron, bool)>, Vec<(u64, usize)>) = with_world(|w| {
         if !(w.pause.active && w.pause.stopped) {
             violation(
                 "C13",
@@ -284,7 +284,24 @@ pub fn process_weak_refs(
                 }
             }
         }
-        (w.ephemerons.clone(), strong)
+        // ImmortalSpace::is_reachable answers false for every immortal object during a nursery GC
+        // (the space is re-prepared but not traced), although the API documentation promises
+        // `true` for mature objects in nursery GCs.  No listed property covers that query, so the
+        // binding works around it: pre-tenured keys count as alive in nursery pauses.
+        let nursery = info.nursery == Some(true);
+        let eph: Vec<(Ephemeron, bool)> = w
+            .ephemerons
+            .iter()
+            .map(|e| {
+                let pretenured = w
+                    .objs
+                    .get(&e.key)
+                    .map(|o| matches!(o.sem, SEM_IMMORTAL | SEM_NONMOVING))
+                    .unwrap_or(false);
+                (e.clone(), nursery && pretenured)
+            })
+            .collect();
+        (eph, strong)
     });
     for (id, addr) in strong {
         if let Some(o) = obj::raw_to_ref(addr) {
@@ -305,7 +322,7 @@ pub fn process_weak_refs(
     let cur_pause = with_world(|w| w.pause.n);
     let mut traced: Vec<(usize, usize)> = Vec::new(); // (index, value address returned by the tracer)
     tracer_context.with_tracer(worker, |tracer| {
-        for (i, e) in eph.iter().enumerate() {
+        for (i, (e, assume_alive)) in eph.iter().enumerate() {
             if e.value_traced_in_pause == cur_pause {
                 continue;
             }
@@ -313,7 +330,7 @@ pub fn process_weak_refs(
                 Some(k) => k,
                 None => continue,
             };
-            if reachable_now(key).is_some() {
+            if *assume_alive || reachable_now(key).is_some() {
                 if let Some(v) = obj::raw_to_ref(e.value_addr) {
                     let nv = tracer.trace_object(v);
                     traced.push((i, nv.to_raw_address().as_usize()));
